@@ -78,11 +78,25 @@ struct Kind {
     tagged: bool,
 }
 
-fn mk_art<V: Clone>(k: Kind, domain: &[V], serial: usize) -> Artifact<V, TDigest, bool> {
+/// (os, arch) of the queried platform and of the two non-matching classes, under two role assignments:
+/// A: query linux/amd64, other os darwin/amd64, other arch linux/arm64;
+/// B: query darwin/arm64, other os linux/arm64, other arch darwin/amd64
+fn platform(roles: u8, class: u8) -> (Os, Arch) {
+    match (roles, class) {
+        (0, 0) => (Os::Linux, Arch::Amd64),
+        (0, 1) => (Os::Darwin, Arch::Amd64),
+        (0, _) => (Os::Linux, Arch::Arm64),
+        (_, 0) => (Os::Darwin, Arch::Arm64),
+        (_, 1) => (Os::Linux, Arch::Arm64),
+        (_, _) => (Os::Darwin, Arch::Amd64),
+    }
+}
+
+fn mk_art<V: Clone>(k: Kind, domain: &[V], serial: usize, roles: u8) -> Artifact<V, TDigest, bool> {
     Artifact {
         version: domain[k.v as usize].clone(),
-        os: if k.class == 1 { Os::Darwin } else { Os::Linux },
-        arch: if k.class == 2 { Arch::Arm64 } else { Arch::Amd64 },
+        os: platform(roles, k.class).0,
+        arch: platform(roles, k.class).1,
         url: format!("u{serial}"),
         checksum: "t:00aa".parse::<Checksum<TDigest>>().unwrap(),
         metadata: k.tagged,
@@ -92,13 +106,17 @@ fn mk_art<V: Clone>(k: Kind, domain: &[V], serial: usize) -> Artifact<V, TDigest
 type Viol = (String, String, serde_json::Value);
 
 /// judge one inventory (sequence of kinds) for all queries
-fn judge<V: Clone + PartialOrd + PartialEq + std::fmt::Debug>(seq: &[Kind], domain: &[V], total: bool, which: &str, resolve: impl Fn(&Inventory<V, TDigest, bool>, &Req<V>) -> Option<String>) -> (u64, Vec<Viol>) {
-    let mut inv = Inventory::<V, TDigest, bool>::new();
-    for (i, k) in seq.iter().enumerate() {
-        inv.push(mk_art(*k, domain, i));
-    }
+fn judge<V: Clone + PartialOrd + PartialEq + std::fmt::Debug>(seq: &[Kind], domain: &[V], total: bool, which: &str, resolve: impl Fn(&Inventory<V, TDigest, bool>, &Req<V>, Os, Arch) -> Option<String>) -> (u64, Vec<Viol>) {
     let mut v = Vec::new();
     let mut n = 0;
+    for roles in 0..2u8 {
+    let mut inv = Inventory::<V, TDigest, bool>::new();
+    for (i, k) in seq.iter().enumerate() {
+        inv.push(mk_art(*k, domain, i, roles));
+    }
+    let (qos, qarch) = platform(roles, 0);
+    let which = &if roles == 0 { which.to_string() } else { format!("{which}[query darwin/arm64]") };
+    let resolve = |inv: &Inventory<V, TDigest, bool>, req: &Req<V>| resolve(inv, req, qos, qarch);
     for mask in 0..(1u32 << domain.len()) {
         for only_tagged in [false, true] {
             n += 1;
@@ -126,6 +144,7 @@ fn judge<V: Clone + PartialOrd + PartialEq + std::fmt::Debug>(seq: &[Kind], doma
                 }
             }
         }
+    }
     }
     let _ = total;
     (n, v)
@@ -264,6 +283,28 @@ fn checksum_grammar(rep: &mut Reporter) -> (u64, u64) {
     (total, accepted)
 }
 
+/// grammar-valid checksums of every digest type used in this process, parsed in a fixed order and
+/// again in reverse: acceptance must not depend on which digest type was parsed before
+fn order_independence(rep: &mut Reporter) -> bool {
+    let mut ok = true;
+    let t = "t:00aa".to_string();
+    let s256 = format!("sha256:{}", "0f".repeat(32));
+    let s512 = format!("sha512:{}", "0f".repeat(64));
+    for round in 0..2 {
+        let mut results = vec![("t", t.parse::<Checksum<TDigest>>().is_ok()), ("sha256", s256.parse::<Checksum<Sha256>>().is_ok()), ("sha512", s512.parse::<Checksum<Sha512>>().is_ok())];
+        if round == 1 {
+            results = vec![("sha512", s512.parse::<Checksum<Sha512>>().is_ok()), ("sha256", s256.parse::<Checksum<Sha256>>().is_ok()), ("t", t.parse::<Checksum<TDigest>>().is_ok())];
+        }
+        for (name, accepted) in results {
+            if !accepted {
+                ok = false;
+                rep.violation("checksum:rejects-valid-after-other-digest", format!("a valid {name} checksum is rejected after checksums of other digest types were parsed in the same process"), json!({"checksum_order": name}));
+            }
+        }
+    }
+    ok
+}
+
 fn toml_roundtrip(rep: &mut Reporter) -> u64 {
     type Inv = Inventory<semver::Version, Sha256, Option<std::collections::BTreeMap<String, String>>>;
     let urls = ["https://e.com/a", "", "a b", "q\"uote", "back\\slash", "new\nline", "tab\t", "é😀", "'''", "# = [x]", "\u{0}\u{7f}"];
@@ -350,14 +391,14 @@ pub fn run(args: &Args) {
         v.extend(run_one(s, "partial_resolve(total)"));
         v
     }).collect();
-    queries += seq_total.len() as u64 * 2 * 16;
+    queries += seq_total.len() as u64 * 2 * 16 * 2;
     let r2: Vec<_> = seq_partial.par_iter().map(|s| run_one(s, "partial_resolve(diamond)")).collect();
-    queries += seq_partial.len() as u64 * 128;
+    queries += seq_partial.len() as u64 * 128 * 2;
     for v in r1.into_iter().chain(r2).flatten() {
         rep.violation(&v.0, v.1, v.2);
     }
     let (cs_total, cs_acc) = checksum_grammar(&mut rep);
-    let rt = toml_roundtrip(&mut rep);
+    let rt = if order_independence(&mut rep) { toml_roundtrip(&mut rep) } else { 0 };
     let inventories = (seq_total.len() + seq_partial.len()) as u64;
     rep.cov("evaluations", queries + cs_total + rt);
     rep.cov("inventories", inventories);
@@ -367,7 +408,7 @@ pub fn run(args: &Args) {
     rep.cov("toml_roundtrips", rt);
     let nontrivial = seq_total.iter().filter(|s| s.iter().filter(|k| k.class == 0).count() >= 2).count() as u64 + seq_partial.iter().filter(|s| s.iter().filter(|k| k.class == 0).count() >= 2).count() as u64;
     rep.cov("distinct_nontrivial", nontrivial);
-    rep.cov("rule", "all sequences (order matters) of <= L artifacts over {matching, wrong os, wrong arch} x versions x tagged, pushed through the real Inventory::push; for each, every requirement (subset of the version domain x metadata predicate) through resolve (total order 1<2<3), partial_resolve on the same, and partial_resolve on the 4-element diamond partial order extended by an isolated element and a NaN-like element (partial_cmp None even against itself); non-trivial = inventories with >= 2 os/arch-matching artifacts. Checksums: all strings of length <= 7 over {t : a F 0 g space LF +} for a 2-byte digest 't', and prefix x separator x length x single-position replacement grids (plus leading/trailing white space) around 64/128 for Sha256/Sha512, each through BOTH acceptance paths (FromStr and serde deserialisation from a TOML document). TOML: inventories of <= 2 artifacts over payload urls x versions x os x arch x metadata");
+    rep.cov("rule", "all sequences (order matters) of <= L artifacts over {matching, wrong os, wrong arch} x versions x tagged (under two platform role assignments: query linux/amd64 and query darwin/arm64), pushed through the real Inventory::push; for each, every requirement (subset of the version domain x metadata predicate) through resolve (total order 1<2<3), partial_resolve on the same, and partial_resolve on the 4-element diamond partial order extended by an isolated element and a NaN-like element (partial_cmp None even against itself); non-trivial = inventories with >= 2 os/arch-matching artifacts. Checksums: all strings of length <= 7 over {t : a F 0 g space LF +} for a 2-byte digest 't', and prefix x separator x length x single-position replacement grids (plus leading/trailing white space) around 64/128 for Sha256/Sha512, each through BOTH acceptance paths (FromStr and serde deserialisation from a TOML document). TOML: inventories of <= 2 artifacts over payload urls x versions x os x arch x metadata");
     rep.cov("bound", json!({"max_inventory_len_total": max_len, "max_inventory_len_partial": if args.thorough() {4} else {3}, "artifact_kinds_total": k_total.len(), "artifact_kinds_partial": k_partial.len()}));
     rep.cov("exhaustive", true);
     rep.sample(json!({"inventory": seq_total[seq_total.len() - 1], "queries": "all 8 version subsets x 2 metadata predicates"}));
@@ -381,13 +422,13 @@ fn run_one(seq: &[Kind], which: &str) -> Vec<Viol> {
     match which {
         "resolve" => {
             let domain: Vec<u32> = vec![1, 2, 3];
-            judge(seq, &domain, true, which, |inv, req| inv.resolve(Os::Linux, Arch::Amd64, req).map(|a| a.url.clone())).1
+            judge(seq, &domain, true, which, |inv, req, os, arch| inv.resolve(os, arch, req).map(|a| a.url.clone())).1
         }
         "partial_resolve(total)" => {
             let domain: Vec<u32> = vec![1, 2, 3];
-            judge(seq, &domain, true, which, |inv, req| inv.partial_resolve(Os::Linux, Arch::Amd64, req).map(|a| a.url.clone())).1
+            judge(seq, &domain, true, which, |inv, req, os, arch| inv.partial_resolve(os, arch, req).map(|a| a.url.clone())).1
         }
-        _ => judge(seq, &DIAMOND, false, which, |inv, req| inv.partial_resolve(Os::Linux, Arch::Amd64, req).map(|a| a.url.clone())).1,
+        _ => judge(seq, &DIAMOND, false, which, |inv, req, os, arch| inv.partial_resolve(os, arch, req).map(|a| a.url.clone())).1,
     }
 }
 
